@@ -23,7 +23,7 @@ def run(ctx, rep):
         "The parameter header is checked as a protocol (writer sequence included in the reader's, conditional fields bound "
         "to their code points), for code-point exhaustiveness, for field-to-position correspondence, for width overflow by "
         "upper-bound inference over all construction sites of each field, and for single-sourcing of the parameters on both "
-        "sides. These are necessary for `parameters read back equal the ones written` for every parameter vector.")
+        "sides, and analysis and reconstruction drive the shared predictor state with the same operation sequence (P6). These are necessary for `parameters read back equal the ones written` for every parameter vector.")
     rep.trusted = ["decode_value(n) returns what encode_value(v, n) wrote when v < 2^n (C10)"]
     res, W, R = c02.m1(F, rep, rule="P1", wentry=PP + "write", rentry=PP + "read", floors=False)
     rep.floor("P1", "header-fields-writer", len(W.static_sites(PP + "write")), 20)
